@@ -151,7 +151,7 @@ def compile_props(ctx):
 # replay / readiness / compaction are regenerated from graph.go; the properties that stand on them re-check the
 # equivalence theorems between the regenerated definitions and the hand-written model
 EXTRA_BRIDGE = {'C01': ['B_Ready', 'B_CmdClaim', 'B_CmdGrid'], 'C03': ['B_Read'], 'C05': ['B_Replay', 'B_Compact'], 'C06': ['B_Replay', 'B_CmdSet', 'B_CmdApply', 'B_CmdGrid'], 'C07': ['B_Cycle', 'B_CmdLink', 'B_CmdGrid'],
-                'C08': ['B_Replay', 'B_Ready', 'B_CmdClaim'], 'C09': ['B_Replay', 'B_Prune', 'B_CmdNew', 'B_CmdGrid'], 'C10': ['B_Cmd', 'B_CmdSet', 'B_CmdApply', 'B_CmdLink', 'B_CmdNew', 'B_CmdGrid'], 'C11': ['B_CmdGrid'], 'C12': ['B_Read'], 'C13': ['B_Read'],
+                'C08': ['B_Replay', 'B_Ready', 'B_CmdClaim'], 'C09': ['B_Replay', 'B_Prune', 'B_CmdNew', 'B_CmdPrune', 'B_CmdGrid'], 'C10': ['B_Cmd', 'B_CmdSet', 'B_CmdApply', 'B_CmdLink', 'B_CmdNew', 'B_CmdGrid'], 'C11': ['B_CmdGrid'], 'C12': ['B_Read'], 'C13': ['B_Read'],
                 'C14': ['B_Replay', 'B_CmdSet', 'B_CmdApply', 'B_CmdNew', 'B_CmdGrid'], 'C15': ['B_Replay', 'B_Ready', 'B_Cycle', 'B_CmdLink'], 'C16': ['B_CmdSet', 'B_CmdApply', 'B_CmdNew', 'B_CmdGrid'], 'C18': ['B_Read'],
                 'C19': ['B_Ready'], 'C20': ['B_Replay', 'B_Compact', 'B_Cmd', 'B_CmdApply']}
 
